@@ -17,6 +17,9 @@ func init() { props["C12"] = checkC12 }
 
 func checkC12(c *Ctx) {
 	c.Decides("SIBLING: each of parsimonyUPPASS (inner-node branch), parsimonyDOWNPASS, parsimonyDELTRAN, parsimonyACCTRAN, computeParsimony and randomlyResolveNodeStates is reduced, in package acr and in package asr, to a normalised skeleton (loops over children / states, count-vs-threshold decisions normalised to 'count >= k', which state vector of which node is read or written, accumulation operators, calls) with the per-site loop of asr projected away; the two skeletons must be equal ('sequence reconstruction agrees site by site with single-character reconstruction')")
+	c.Decides("DISPATCH (sibling): ParsimonyAcr and ParsimonyAsr run the same passes per algorithm constant, in the same order and with the same use of the random-resolution option, and both write the result onto the tree afterwards")
+	c.parsDispatch("DISPATCH", "sequence reconstruction agrees site by site with single-character reconstruction")
+	c.Floor("DISPATCH", 4)
 	c.Decides("STATE-ALIAS: in packages acr and asr no entry of a per-node state table is assigned from an entry of a table of the same type (no two entries share storage: a pass that writes one table cannot alter another, tips included)")
 	if sites, _ := c.stateAlias("STATE-ALIAS", c.AllFuncs("acr", "asr"), "Tip states are never altered"); sites == 0 {
 		c.Undecided("STATE-ALIAS", "scan", token.NoPos, "no store into a per-node state table seen in acr / asr")
